@@ -9,6 +9,7 @@ import (
 	"fmt"
 	"runtime/debug"
 	"strings"
+	"sync"
 	"sync/atomic"
 
 	"github.com/willabides/rjson"
@@ -282,3 +283,72 @@ var (
 	vSentUint uint64 = 987654321987
 	sentUint         = uint(vSentUint)
 )
+
+// concurrentPure runs f, a function of the document only, from 16 goroutines at once on documents
+// of different shapes and compares every result with what the same call returned when it ran alone
+// (results only; the race-detector side of concurrency is C18). Seeded change C01r6-m1: Valid with a
+// nil buffer borrowed a pooled stack and put it back while still using it.
+func concurrentPure(c *Ctx, entry string, f func(d []byte) string) {
+	if c.NShards > 1 && c.Shard != 2%c.NShards {
+		return
+	}
+	if c.Replay != nil {
+		return
+	}
+	const G = 24
+	docs := make([][]byte, 0, G)
+	for g := 0; g < G; g++ {
+		pat := workload.NestPatterns[(g*5)%len(workload.NestPatterns)]
+		inner := workload.NestInner[g%len(workload.NestInner)]
+		nest := workload.BuildNest(pat, 20+7*g, inner, 20+7*g)
+		var d []byte
+		d = append(d, '[')
+		for k := 0; k < 40; k++ {
+			d = append(d, nest...)
+			d = append(d, ',')
+			d = append(d, workload.W3Valid(c.Seed, uint64(g*100+k))...)
+			d = append(d, ',')
+		}
+		d = append(d, `"end\n"]`...)
+		if g%5 == 4 {
+			d = d[:len(d)-1] // one goroutine in five works on a truncated document
+		}
+		docs = append(docs, d)
+	}
+	alone := make([]string, G)
+	for g := range docs {
+		alone[g] = f(docs[g])
+	}
+	cs := &h.Case{Family: "concurrent-callers", Desc: "24 goroutines, each calling " + entry + " 400 times on its own document (nests of different shapes and depths 20..181 interleaved with generated documents, 3-60 KB)"}
+	cs.Input = []byte(cs.Desc)
+	c.Rec.R.Cases++
+	var bad int64
+	var first atomic.Value
+	var wg sync.WaitGroup
+	for g := 0; g < G; g++ {
+		wg.Add(1)
+		go func(g int) {
+			defer wg.Done()
+			defer func() {
+				if r := recover(); r != nil {
+					atomic.AddInt64(&bad, 1)
+					first.Store(fmt.Sprintf("goroutine %d panicked: %v", g, r))
+				}
+			}()
+			for round := 0; round < 400; round++ {
+				if got := f(docs[g]); got != alone[g] {
+					if atomic.AddInt64(&bad, 1) == 1 {
+						first.Store(fmt.Sprintf("goroutine %d round %d: %s, alone: %s", g, round, got, alone[g]))
+					}
+				}
+			}
+		}(g)
+	}
+	wg.Wait()
+	c.Rec.Evals(G * 401)
+	c.Rec.Count("concurrent_calls_compared_with_the_same_call_alone", G*400)
+	if bad > 0 {
+		fb, _ := first.Load().(string)
+		c.Rec.AddViolation(h.Violation{Property: c.Prop, Oracle: entry + " returns something else when other goroutines call it on other documents at the same time", Entry: entry, Family: cs.Family, Desc: cs.Desc, Script: "concurrent", Expected: "the result of the same call running alone", Observed: fmt.Sprintf("%d differing results; first: %s", bad, fb), Seed: c.Seed, Tier: c.Tier})
+	}
+}
